@@ -19,6 +19,14 @@ SPEC = dict(
                "sampled beyond. Identifiers: nng_id_map_* against a dictionary (tiny wrapping ranges, 2^32/2^63/2^64 edges, keys "
                "colliding modulo the table size, iteration with removal) plus the guarded structural recount in idhash.c; object "
                "ids collected from open/close storms and request/survey ids read off the wire by raw peers. "
+               "Teardown: half of the enumerated and random white-box histories end with the queue finished / closed as the history "
+               "left it (messages in a rotated ring, puts and gets blocked): every waiter fails with NNG_ECLOSED, a failed put still "
+               "owns its message, and the accounting allocator's balance returns to where the case began (ASan sees a wrong wrap in the "
+               "free loops). Senders parked behind a full SENDBUF (pair0/pair1/push: waq/aq moved in by the option setter, raw req: "
+               "nni_msgq putq) are followed through grow/shrink/grow resizes. A SUB context opened after the socket's RECVBUF was set "
+               "is judged by what it retains. Mode 'live' (ASan and TSan) changes the depth of 12 kinds of buffer from the main thread "
+               "while one or two threads send and one receives. Bodies are 16..300 bytes keyed over their whole length; REQ headers are "
+               "checked on every delivery. "
                "Held-on-what-was-run, not a proof.",
     level_note="Trusts the ~150-line candidate-set model in harness/c18_queue.c and the dictionary in harness/c18_ids.c. "
                "Capacity is judged differentially (accepted(depth d) - accepted(depth 0) == d with nobody receiving): calibrated on the "
@@ -35,12 +43,25 @@ SPEC = dict(
                "rehash under nng_id_visit in nni_id_remove (b907fda), nni_id_alloc cursor overflow at hi == UINT64_MAX (216d2d3). "
                "A random start value (NNG_MAP_RANDOM) cannot be seeded: on ranges up to 300 ids the case first walks the cursor to the "
                "top of the range so that it replays exactly; 1 case in 16 uses the flag unprimed (marked in the case description). "
-               "Object ids: the real 2^31 wrap of the socket/ctx/dialer/listener/pipe maps cannot be reached (the maps are static "
-               "in their .c files; no accessor) - their configuration is judged by range and 'never twice in a run', the wrap logic "
-               "itself through nng_id_map; a second thread opens sockets/contexts during half of the storms. nni_msgq pollables "
-               "are C15's. "
-               "A blocked nni_msgq putter is not woken by a growing resize or by a get that makes room (messages stay FIFO in "
-               "acceptance order): liveness, left to C06/C15.",
+               "Object ids: the real 2^31 wrap of the socket/ctx/dialer/listener/pipe maps cannot be reached by allocating; the maps are "
+               "static in their .c files without an accessor, so mode 'wrap' of c18_ids finds each of them through the executable's "
+               "own symbol table (a local OBJECT symbol sock_ids/ctx_ids/dialers/listeners/pipes of sizeof(nni_id_map), accepted only if "
+               "a probe object's id is found in it and the first id issued after moving id_dyn_val is the value written), holds ten "
+               "long-lived objects at the lowest ids, moves the cursor to 6..25 below 0x7fffffff at quiescence and opens/closes 200 "
+               "objects (60 connections = 120 pipes) across the wrap: every id positive and <= 0x7fffffff, never one that an open object "
+               "has, increasing except at the one wrap; a stripped binary makes the floors ids_real_wraps_* fail (inconclusive). In the "
+               "storms the configuration is judged by range and 'never twice in a run'; a second thread opens sockets/contexts during "
+               "half of the storms. nni_msgq pollables are C15's. "
+               "Parked senders: which of them a resize / a departing message admits is judged for order (posting order, no overtaking) "
+               "and bound (never more than there is room); fewer admitted than there is room is liveness (C06/C15) - such a case is "
+               "counted (fan_parked_left_waiting_with_room, 0 on this tree: nni_msgq_resize runs the putq, the cooked setters move waq/aq) "
+               "and not judged further. "
+               "live mode judges only what no interleaving of a correct library can break: per-sender strictly increasing delivery, intact "
+               "bodies/headers, option read-back, and on back-pressure protocols 'accepted but never delivered <= sum over shrinking "
+               "resizes of (old - new depth)' (0 in the grow-only third of the cases); the final 'dry' is a receive aio still busy with "
+               "the library quiescent after all threads were joined, never a timeout. The 10 s send timeout and the 50 ms receive "
+               "poll of the threads only pace the run (a timed-out send is not counted as accepted). "
+               "Teardown balance needs the accounting allocator, so it is not judged under TSan.",
     technique="runtime reference-model monitor (candidate-set queue model, dictionary id model) + ASan/UBSan + invariant hooks",
     rule="an evaluation is one case: a complete scripted or random history on one queue / socket pair / id map, compared after every "
          "step. lmq and msgq modes enumerate every (depth 0..8, ring offset, fill 0..depth, new depth 0..9, gets 0..2, puts 0..2 "
@@ -53,7 +74,11 @@ SPEC = dict(
          "incl. one beyond the depth x new depth x option-before/after-first-pipe) for pub.sendbuf and bus.sendbuf with two "
          "stalled pipes, sub-ctx.recvbuf with two contexts, and pair0/pair1/push/raw req SENDBUF behind a stalled pipe, each "
          "pipe/context followed by its own model, then random send/pull/resize histories. lmq/msgq modes add depths "
-         "31,32,33,64,1000,8192 (offset at the end of the ring) and, in random msgq runs, cancellation of blocked puts/gets. A class is (implementation or socket kind, depth "
+         "31,32,33,64,1000,8192 (offset at the end of the ring) and, in random msgq runs, cancellation of blocked puts/gets. Every second enumerated lmq/msgq index is run a second time and finished / closed as it is (no drain; without waiters "
+         "every other one by nni_msgq_fini alone); half of the random histories end that way, msgq ones with 1-4 puts or gets blocked. "
+         "fan adds (4 send buffers behind a stalled pipe x depth 0..3 x rotated x 1-3 parked senders x new depth 0..5 x 0-2 pulls x new "
+         "depth 0,1,3,6, then 9) and sub-ctx-inherit. live: per case one kind of 12, 1-2 senders, 60-240 resizes paced by deliveries. "
+         "A class is (implementation or socket kind, depth "
          "-> new depth, fill class, ring wrapped or not, dropped or kept) that was executed to the end without a violation; for id "
          "maps (range class, random start, key stride, wrapped, filled, iterated with removal); for storms the protocol / object kind.",
     assumptions=["ASan/UBSan see only red-zone overflows",
@@ -65,8 +90,11 @@ SPEC = dict(
                      R("c18_queue", "asan", 8, 10000, "msgq", 600),
                      R("c18_queue", "asan", 8, 400, "api", 900),
                      R("c18_queue", "asan", 8, 250, "fan", 900),
+                     R("c18_queue", "asan", 8, 24, "live", 900),
+                     R("c18_queue", "tsan", 4, 12, "live", 900),
                      R("c18_ids", "asan", 8, 6000, "map", 600),
-                     R("c18_ids", "asan", 4, 240, "storm", 900)],
+                     R("c18_ids", "asan", 4, 240, "storm", 900),
+                     R("c18_ids", "asan", 2, 5, "wrap", 600)],
                floor={"cases": 600000, "lmq_cases": 258000, "msgq_cases": 296000, "lossy_resizes": 500000,
                       "msgq_blocked_puts": 200000, "msgq_handoffs": 1500000,
                       "api_resize_cases": 11000, "api_capacity_points": 88, "api_refills": 4000,
@@ -76,6 +104,14 @@ SPEC = dict(
                       "big_depth_cases": 1900, "msgq_cancels": 120000, "ids_concurrent": 50000,
                       "idmap_steps": 40000000, "idmap_wraps": 1500000, "idmap_visits": 800000,
                       "ids_sockets": 12000, "ids_pipes": 1000, "ids_requests": 4000, "ids_surveys": 4000,
+                      "nonempty_fini_cases": 215000, "nonempty_fini_wrapped": 3000, "msgq_close_with_waiters": 48000, "msgq_fini_without_close": 43000,
+                      "fan_parked_cases": 3000, "fan_parked_sender_resizes": 5000, "fan_parked_sender_shrinks": 1000,
+                      "fan_ctx_inherit_cases": 270, "header_checks": 33000, "long_bodies": 150000,
+                      "live_cases": 230, "live_resizes": 32000, "live_shrinks": 8500, "live_msgs": 100000,
+                      "live_grow_only_lossless_cases": 30, "@class:live/*": 30, "@class:fan/parked/*": 1500,
+                      "@class:idmap/refusals/*": 12,
+                      "ids_real_wraps_socket": 2, "ids_real_wraps_context": 2, "ids_real_wraps_dialer": 2,
+                      "ids_real_wraps_listener": 2, "ids_real_wraps_pipe": 2,
                       "@classes": 5500},
                exhaustive_note="lmq and msgq modes enumerate their (depth, offset, fill, resize, gets, puts, resize) space completely; "
                                "api enumerates its smaller space completely; random histories, id maps and storms are sampled"),
@@ -83,8 +119,11 @@ SPEC = dict(
                         R("c18_queue", "asan", 16, 100000, "msgq", 3000),
                         R("c18_queue", "asan", 16, 2500, "api", 3000),
                         R("c18_queue", "asan", 16, 2500, "fan", 3000),
+                        R("c18_queue", "asan", 16, 120, "live", 3000),
+                        R("c18_queue", "tsan", 8, 96, "live", 3000),
                         R("c18_ids", "asan", 16, 100000, "map", 3000),
-                        R("c18_ids", "asan", 8, 1500, "storm", 3000)],
+                        R("c18_ids", "asan", 8, 1500, "storm", 3000),
+                        R("c18_ids", "asan", 5, 20, "wrap", 3000)],
                   floor={"cases": 3000000, "lmq_cases": 258000, "msgq_cases": 296000, "lossy_resizes": 3000000,
                          "api_resize_cases": 33000, "api_capacity_points": 88, "api_random_cases": 35000, "api_range_cases": 18,
                          "fan_resize_cases": 18000, "fan_two_pipe_cases": 4900, "fan_ctx_cases": 1200,
@@ -92,6 +131,13 @@ SPEC = dict(
                          "big_depth_cases": 1900, "msgq_cancels": 2000000, "ids_concurrent": 500000,
                          "idmap_steps": 1000000000, "idmap_wraps": 40000000,
                          "ids_sockets": 120000, "ids_pipes": 12000, "ids_requests": 40000, "ids_surveys": 40000,
+                         "nonempty_fini_cases": 880000, "msgq_close_with_waiters": 570000, "msgq_fini_without_close": 43000,
+                         "fan_parked_cases": 6500, "fan_parked_sender_resizes": 12000, "fan_ctx_inherit_cases": 1200,
+                         "header_checks": 240000, "long_bodies": 1000000,
+                         "live_cases": 2600, "live_resizes": 370000, "live_shrinks": 105000, "live_msgs": 1500000,
+                         "live_grow_only_lossless_cases": 420, "@class:live/*": 44, "@class:fan/parked/*": 3000,
+                         "ids_real_wraps_socket": 20, "ids_real_wraps_context": 20, "ids_real_wraps_dialer": 20,
+                         "ids_real_wraps_listener": 20, "ids_real_wraps_pipe": 20,
                          "@classes": 9000},
                   exhaustive_note="as quick, with api depths up to 8 and 20x the random histories"),
 )
